@@ -210,6 +210,9 @@ def handle_conditional(v, fac, sf, F):
             fi2 = fac2.get(k)
             f1 = z if fi1 is None else F.nodes[fi1]["expression"]
             f2 = z if fi2 is None else F.nodes[fi2]["expression"]
+            if fi1 is None or fi2 is None:
+                # The zero branch must be a vertex of the factorisation graph too
+                graph_insert(F, z)
             factors[k] = graph_insert(F, conditional(f0, f1, f2))
 
     return factors
